@@ -107,7 +107,10 @@ def engine_group_key(q):
 
 
 def cls_engine_silent(qs, i, stream):
-    return any(j != i and engine_group_key(qs[j]) == engine_group_key(qs[i]) for j in range(len(qs)))
+    """another stream of the program has the same non-empty set of Kleene positions (the harness writes `all` exactly
+    at the query's Kleene positions, the source included, so the positions are those of the VPL program)"""
+    key = engine_group_key(qs[i])
+    return bool(key) and any(j != i and engine_group_key(qs[j]) == key for j in range(len(qs)))
 
 
 # ---------------------------------------------------------------- generation
@@ -159,7 +162,8 @@ CORPUS = [
     ([{"types": ["A", "B", "C"], "kleene": [1]}], list("ABC")),              # incremental report 2, one trend
     ([{"types": ["A", "B"], "kleene": [1]}, {"types": ["B", "A"], "kleene": [1]}], list("ABAB")),  # GRETA: edges of one query feed the other (C25_greta_sharing_refuted)
     ([{"types": ["A", "B"], "kleene": [1]}], list("BAZ")),                   # no trend, nothing reported
-    ([{"types": ["C", "B"], "kleene": [1]}, {"types": ["A", "C"], "kleene": [1]}], list("CBBAB")),   # A splits the B burst only next to the second query
+    ([{"types": ["C", "B"], "kleene": [1]}, {"types": ["A", "C"], "kleene": [1]}], list("CBBAB")),
+    ([{"types": ["A", "D", "B"], "kleene": [0, 1]}, {"types": ["A", "D", "C"], "kleene": [0, 1]}, {"types": ["D", "B", "C"], "kleene": [1]}], list("DDDBBCCAADB")),  # Kleene on the source: `all A`   # A splits the B burst only next to the second query
 ]
 
 
